@@ -139,7 +139,8 @@ impl World for LogContent {
                     format!("fault={plan:?}: expected {exp_end:?}, real {:?} {:?}", real.end, real.panic),
                 ));
             }
-            if p.log_rules.is_some() && !real.logcfg_present {
+            // (after a panic the state is normally dropped: nothing is claimed about it)
+            if p.log_rules.is_some() && !real.logcfg_present && exp_end != RunEnd::Panicked {
                 return Some(Violation::new("log-config-lost", format!("fault={plan:?}: the LogConfig is gone after the run")));
             }
             let st = real.state.as_ref().unwrap();
@@ -234,6 +235,7 @@ impl World for ExportFaults {
                     Rule { trigger: Cond::EveryN { id: 7, t: TAG_IT, n: 2 }, t: TAG_IT, kind: ExtractorKind::IdLens },
                 ]),
                 pre_ops: vec![Op::Insert(1, 3)],
+                resume: false,
             };
         }
         let format = g.pick(&["json", "cbor", "ron"]).to_string();
